@@ -62,3 +62,6 @@ def run(ctx):
     ctx.coverage["rule"] = ("every run is compiled with -fsanitize=address,undefined -fno-sanitize-recover=all from the working tree; a sanitizer "
                             "report aborts the run and is a violation with the configuration as replay; non-trivial = runs that completed")
     ctx.coverage["definedness_obligations"] = {k: v for m in OBLIGATIONS.values() for k, v in m.items()}
+    # uninitialised reads (clang MemorySanitizer build of the whole core): e.g. message fields the allocator leaves as they were
+    from props import runlib as _rl
+    _rl.msan_matrix(ctx, 12, 200, salt=11)
